@@ -8,7 +8,11 @@
 //
 //	case      ::= (session PROTO MODE TRANSPORT (plugin STEP+) (calls CALL+) (order IDX*))
 //	PROTO     ::= v3 | v1
-//	MODE      ::= serial | (overlap paced|burst)
+//	MODE      ::= serial | (overlap paced|burst|held)     ; held: a burst while the client's side of the server->client
+//	                                                    ; stream is not being read (back-pressure on the server's
+//	                                                    ; output: a slow consumer); reading starts when everything has
+//	                                                    ; come to rest.  Serial sessions may RE-USE the run id of an
+//	                                                    ; earlier (finished) call: an ordinary call.
 //	TRANSPORT ::= pipe | buf | (frag pipe|buf (N+))     ; io.Pipe / OS-pipe-like buffer / either one with every
 //	                                                    ; Write split into chunks of the scripted sizes and every
 //	                                                    ; Read cut to the scripted short counts (cyclic lists)
@@ -59,14 +63,15 @@ type c05Call struct {
 }
 
 type c05Session struct {
-	proto    string // v3 | v1
-	overlap  bool
-	paced    bool
-	base     string // pipe | buf
-	sizes    []int  // nil: no fragmentation
-	steps    []*sx.Node
-	calls    []c05Call
-	order    []int
+	proto   string // v3 | v1
+	overlap bool
+	paced   bool
+	held    bool   // overlap held
+	base    string // pipe | buf
+	sizes   []int  // nil: no fragmentation
+	steps   []*sx.Node
+	calls   []c05Call
+	order   []int
 }
 
 func c05Parse(p *sx.Node) (s *c05Session, ok bool) {
@@ -87,6 +92,7 @@ func c05Parse(p *sx.Node) (s *c05Session, ok bool) {
 	case m.Head() == "overlap":
 		s.overlap = true
 		s.paced = m.List[1].IsAtom("paced")
+		s.held = m.List[1].IsAtom("held")
 	default:
 		return nil, false
 	}
@@ -271,6 +277,40 @@ func (x c05FragR) Close() error { return x.r.Close() }
 type c05Duplex struct {
 	cliR, srvR io.ReadCloser
 	cliW, srvW io.WriteCloser
+	hold       *c05HoldR // non-nil: the client's reads can be held back (mode `overlap held`)
+}
+
+// c05HoldR: a reader that can be stopped: while held, Read blocks before it touches the underlying stream, so nothing
+// is taken off an unbuffered pipe and the writer (the server) feels the back-pressure of a consumer that does not read.
+type c05HoldR struct {
+	r    io.ReadCloser
+	mu   sync.Mutex
+	cond *sync.Cond
+	held bool
+}
+
+func c05NewHoldR(r io.ReadCloser) *c05HoldR {
+	h := &c05HoldR{r: r}
+	h.cond = sync.NewCond(&h.mu)
+	return h
+}
+func (h *c05HoldR) set(v bool) {
+	h.mu.Lock()
+	h.held = v
+	h.mu.Unlock()
+	h.cond.Broadcast()
+}
+func (h *c05HoldR) Read(b []byte) (int, error) {
+	h.mu.Lock()
+	for h.held {
+		h.cond.Wait()
+	}
+	h.mu.Unlock()
+	return h.r.Read(b)
+}
+func (h *c05HoldR) Close() error {
+	h.set(false)
+	return h.r.Close()
 }
 
 func c05OneWay(base string, sizes []int, shift int) (io.ReadCloser, io.WriteCloser) {
@@ -293,9 +333,16 @@ func c05NewDuplex(s *c05Session) *c05Duplex {
 	d := &c05Duplex{}
 	d.srvR, d.cliW = c05OneWay(s.base, s.sizes, 0)
 	d.cliR, d.srvW = c05OneWay(s.base, s.sizes, 2)
+	if s.held {
+		d.hold = c05NewHoldR(d.cliR)
+		d.cliR = d.hold
+	}
 	return d
 }
 func (d *c05Duplex) closeAll() {
+	if d.hold != nil {
+		d.hold.set(false)
+	}
 	_ = d.cliW.Close()
 	_ = d.srvW.Close()
 	_ = d.cliR.Close()
@@ -544,11 +591,20 @@ func c05RunOnce(s *c05Session) (results []c05Res, hits []int, server string, han
 			}
 		}
 	} else {
+		if s.held {
+			d.hold.set(true) // from now on nobody reads what the server writes
+		}
 		for i := 0; i < n; i++ {
 			go exec(i)
 			if s.paced {
 				waitQuiescent()
 			}
+		}
+		if s.held {
+			// every work start has been written and handled as far as it can be without the client reading: rejected
+			// inputs have failed, their error reports are queued behind the one the server is trying to write
+			waitQuiescent()
+			d.hold.set(false)
 		}
 		for _, j := range s.order {
 			tab.m[s.calls[j].tok].release()
@@ -931,7 +987,10 @@ var c05RunNames = []string{"r0", "r1", "r2", "r3", "run-a", "run/b", "00000000-0
 // c05GenCall: an input generated FROM the step's input schema (sometimes mutated so that the schema rejects
 // it), the output the handler will return generated from the chosen output schema.
 func c05GenCall(r *Rng, steps []*sx.Node, i int, wantAccept bool) c05Call {
-	c := c05Call{tok: int64(i + 1), run: c05RunNames[i]}
+	c := c05Call{tok: int64(i + 1), run: fmt.Sprintf("r%d", i)}
+	if i < len(c05RunNames) {
+		c.run = c05RunNames[i]
+	}
 	if r.Chance(30) {
 		c.run = fmt.Sprintf("%s-%d", pick(r, c05RunNames), i)
 	}
@@ -1043,9 +1102,6 @@ func c05GenSession(r *Rng) *sx.Node {
 		for i := 0; i < nCalls; i++ {
 			calls = append(calls, c05GenCall(r, steps, i, r.Chance(72)))
 		}
-		if !c05Expect(steps, calls) {
-			continue
-		}
 		proto := "v3"
 		if r.Chance(30) {
 			proto = "v1"
@@ -1054,8 +1110,57 @@ func c05GenSession(r *Rng) *sx.Node {
 		overlap := r.Chance(60)
 		if overlap {
 			mode = sx.L(sx.A("overlap"), sx.A(pick(r, []string{"paced", "burst"})))
+		} else if nCalls > 1 && r.Chance(45) {
+			// one call after the other: a later call may carry the run id of an earlier one, which has returned - with
+			// its result or with an error - by then; that is an ordinary call (the in-process reference below is
+			// recorded with the same run ids)
+			for i := 1; i < nCalls; i++ {
+				if r.Chance(60) {
+					calls[i].run = calls[r.Intn(i)].run
+				}
+			}
+		}
+		if !c05Expect(steps, calls) {
+			continue
 		}
 		return c05SessionSx(proto, mode, c05Transport(r), steps, calls, c05Order(r, nCalls, overlap))
+	}
+}
+
+// c05GenHeldSession: MANY overlapping calls (6..12), most of them with an input the step's schema rejects, issued in a
+// burst over protocol 3 while the client's side does not read the server's output (an unbuffered pipe: the server's
+// writes block): every failure has to be reported, however many queue up behind a blocked writer.
+func c05GenHeldSession(r *Rng) *sx.Node {
+	for {
+		nSteps := 1 + r.Intn(2)
+		var steps []*sx.Node
+		for i := 0; i < nSteps; i++ {
+			if r.Chance(40) {
+				steps = append(steps, c05SimpleStep(fmt.Sprintf("s%d", i)))
+			} else {
+				steps = append(steps, c05GenStep(r, fmt.Sprintf("s%d", i)))
+			}
+		}
+		if !c05PluginUsable(steps) {
+			continue
+		}
+		nCalls := 6 + r.Intn(7)
+		var calls []c05Call
+		for i := 0; i < nCalls; i++ {
+			calls = append(calls, c05GenCall(r, steps, i, r.Chance(30)))
+		}
+		if !c05Expect(steps, calls) {
+			continue
+		}
+		transport := sx.A("pipe")
+		if r.Chance(35) {
+			sizes := sx.L()
+			for i, n := 0, 2+r.Intn(4); i < n; i++ {
+				sizes.Append(sx.I(int64(8 + r.Intn(120))))
+			}
+			transport = sx.L(sx.A("frag"), sx.A("pipe"), sizes)
+		}
+		return c05SessionSx("v3", sx.L(sx.A("overlap"), sx.A("held")), transport, steps, calls, c05Order(r, nCalls, true))
 	}
 }
 
@@ -1094,6 +1199,13 @@ func genTransparent(r *Rng, tier string, emit func(*sx.Node)) {
 	}
 	for i := 0; i < n; i++ {
 		emit(c05GenSession(r))
+	}
+	nHeld := 70
+	if tier == "thorough" {
+		nHeld = 700
+	}
+	for i := 0; i < nHeld; i++ {
+		emit(c05GenHeldSession(r))
 	}
 }
 
